@@ -40,6 +40,10 @@ PROP = dict(
                   "relations (Arrai/C03/Rel.lean): heading (NamesSlice) and rows (Values) are slices in the same heap; the valueProjector `p`, "
                   "frozen's row set, the groupBy index cache and attrMap are immutable denotations; nest/unnest/rank/=> are modelled as "
                   "relationBuilder over the specified tuples (fresh heading, one fresh row per tuple); JoinCommonOnly's rows as fresh copies of the keys",
+                  "refinement theorems assume, where stated, that the cached count/holes field agrees with the cells (AuxOK) and that cells are admissible "
+                  "elements of their kind (validElem); neither is proved as a history invariant. Not proved (tied by the run only, M!=S = 0): refinement of "
+                  "where on arrays, >>, |, <&> on sequences, array patterns, //seq.split(..)(k), //seq.join, //seq.sub/trim_* on arrays, and of all relational "
+                  "operations (joins, nest, unnest, rank, =>)",
                   "facts: a callee is `fresh` when every return statement returns make/composite literal/append(make..)/a local defined only so "
                   "(syntactic, go/ast; the fields inside a returned composite literal are not followed)"],
     assumptions=["histories of 3-15 steps over 1-3 roots; sequences of length <= 8; array items are numbers (plus the sequences //seq.split makes)",
@@ -49,7 +53,11 @@ PROP = dict(
                  "representation has no leading/trailing/inner hole cells (the model mirrors the representation)",
                  "histshare cases are informational: two live values sharing a backing array with spare capacity is the PRECONDITION of the "
                  "repaired defect, still present (harmlessly) after the repair; they are counted as drift, never as violations"],
-    level_text="Proof: Lean theorems over an explicit heap of Go backing arrays (payloads of strings/bytes/arrays AND headings/rows of relations) - "
+    level_text="Proof (38 theorems): Lean theorems over an explicit heap of Go backing arrays (payloads of strings/bytes/arrays AND headings/rows of relations). "
+               "In-bounds well-formedness of every slice is an invariant of every history (C03_wf_history, C03_rel_wf_history): no re-slice of the model leaves its array. "
+               "Array items held as denotations are justified by a reduction theorem over the reference-following view of nested values (C03_nested_history). "
+               "Refinement to the V-level specification is proved for with (all cases, all kinds), without (strings incl. trimHoles, bytes, arrays), n\\x, "
+               "builder-made results (conditional on the builder's representability), and //seq trim_prefix/trim_suffix/sub/split/repeat/concat on strings and bytes. "
                "for relations: the eight join operators (Joiner, Relation.Join, positionalRelation.Join with JoinKeepEverything/joinOneSide/JoinCommonOnly/"
                "JoinIfCommonExist, projectedValues.values), With/Without/Where/Union and builder-made results store only into arrays they allocated "
                "(rel_step_writes_only_fresh, rel_step_frame), so for ALL histories of such operations - joins on results of earlier joins, the same parent "
